@@ -588,3 +588,18 @@ Proof.
   - left. exists m. auto.
   - right. auto.
 Qed.
+
+(* the same for any supported valuation and a non-empty initial `current` (sample.py, repeated calls) *)
+Theorem propagate_sound_supported_total : forall g a s ev cur0 sched fuel,
+    supported g a s -> sat_lits s ev -> holds_in s cur0 ->
+    closed_graph g -> ev_in_range g ev -> fuel_bound g ev <= fuel ->
+    (exists m, propagate_m g ev cur0 sched fuel = Done m /\ holds_in s m) \/
+    propagate_m g ev cur0 sched fuel = BadSched.
+Proof.
+  intros g a s ev cur0 sched fuel SUP SAT C0 CL ER FB.
+  pose proof (propagate_terminates g ev cur0 sched fuel FB) as T.
+  pose proof (propagate_no_badnode g ev cur0 sched fuel CL ER) as B.
+  destruct (propagate_m g ev cur0 sched fuel) as [m| | | |] eqn:R; try congruence; auto.
+  - left. exists m. split; auto. eapply propagate_sound_supported; eauto.
+  - exfalso. eapply propagate_inconsistent_supported; eauto.
+Qed.
